@@ -310,3 +310,43 @@ package mqtt
 //@   assigns c.idLast
 //@   ensures[C01,C07] delegates: evCount("unsubscribeImpl") == 1 && evArg[*BaseClient]("unsubscribeImpl", 0, 1) == c && evArg[context.Context]("unsubscribeImpl", 0, 0) == ctx &&
 //@        sameSlice(evArg[[]string]("unsubscribeImpl", 0, 2), subs) && result == evRet[error]("unsubscribeImpl", 0, 0)
+
+// ---- retry queue drain (C01, C02, C03, C12, C18) and resubscription (C08) ----
+
+// every function value stored in retryQueue: it may append to the queue but never removes or
+// reorders entries; one that returns a retry error leaves the queue as it found it
+//@ fntype retryFn
+//@   shape ctx context.Context, cli *BaseClient, c *RetryClient -> result error
+//@   assigns c.retryQueue; c.newRetryByError; c.subEstablished; (c.subEstablished)[*]; any Message.ID; any Message.Dup; any BaseClient.idLast; any Message.QoS
+//@   let q ssnap[retryFn] = sliceSnap(c.retryQueue)
+//@   let e0 []Subscription = c.subEstablished
+//@   ensures len(c.retryQueue) >= ssLen(q) && forall(0, ssLen(q), func(i int) bool { return sameFunc(c.retryQueue[i], ssAt(q, i)) })
+//@   ensures hasRetry(result) ==> len(c.retryQueue) == ssLen(q)
+//@   ensures sameArray(c.subEstablished, e0) || fresh(c.subEstablished) || c.subEstablished == nil
+
+//@ func (*RetryClient).Retry$1
+//@   mode int
+//@   props C01 C02 C03 C12 C18
+//@   ovfwrap
+//@   requires c != nil && cli != nil && ctx != nil
+//@   requires forall(0, len(c.retryQueue), func(i int) bool { return c.retryQueue[i] != nil })
+//@   assigns c.retryQueue; c.newRetryByError; c.subEstablished; (c.subEstablished)[*]; any Message.ID; any Message.Dup; any BaseClient.idLast; any Message.QoS
+//@   let old ssnap[retryFn] = sliceSnap(c.retryQueue)
+//@   let es0 []Subscription = c.subEstablished
+//@   loop 1 invariant sub_arr: sameArray(c.subEstablished, es0) || fresh(c.subEstablished) || c.subEstablished == nil
+//@   loop 1 iterlet qi ssnap[retryFn] = sliceSnap(c.retryQueue)
+//@   loop 1 invariant copy: len(oldRetryQueue) == ssLen(old) && forall(0, ssLen(old), func(i int) bool { return sameFunc(oldRetryQueue[i], ssAt(old, i)) }) &&
+//@        !sameArray(oldRetryQueue, c.retryQueue)
+//@   loop 1 iter[C03] in_order: evCount("fntype:retryFn") == 1 && sameFunc(evArg[retryFn]("fntype:retryFn", 0, 2), ssAt(old, rangeindex+1)) &&
+//@        evArg[*BaseClient]("fntype:retryFn", 0, 1) == cli
+//@   loop 1 iter[C01,C03] grows: len(c.retryQueue) >= ssLen(qi) && forall(0, ssLen(qi), func(i int) bool { return sameFunc(c.retryQueue[i], ssAt(qi, i)) })
+//@   loop 1 iter[C01] continues_only_without_handle: !hasRetry(evRet[error]("fntype:retryFn", 0, 0))
+//@   loop 1 exit[C01,C02,C03,C12] requeue_exact: evCount("fntype:retryFn") == 1 && hasRetry(evRet[error]("fntype:retryFn", 0, 0)) ==>
+//@        len(c.retryQueue) == ssLen(qi)+1+(ssLen(old)-(rangeindex+2)) &&
+//@        forall(0, ssLen(qi), func(i int) bool { return sameFunc(c.retryQueue[i], ssAt(qi, i)) }) &&
+//@        isBoundRetry(c.retryQueue[ssLen(qi)], evRet[error]("fntype:retryFn", 0, 0)) &&
+//@        forall(0, ssLen(old)-(rangeindex+2), func(j int) bool { return sameFunc(c.retryQueue[ssLen(qi)+1+j], ssAt(old, rangeindex+2+j)) })
+//@   loop 1 iter[C18] ctx_is_request_context: evCount("(*RetryClient).requestContext") == 1 &&
+//@        evArg[context.Context]("fntype:retryFn", 0, 0) == evRet[context.Context]("(*RetryClient).requestContext", 0, 0)
+//@   loop 1 exit[C18] on_error: evCount("fntype:retryFn") == 1 && hasRetry(evRet[error]("fntype:retryFn", 0, 0)) ==>
+//@        evCount("(*RetryClient).onError") == 1 && c.newRetryByError
